@@ -17,6 +17,10 @@ var (
 		{{ID: "p1", Subnets: []string{"s1", "s2"}, IPs: []string{"ip1", "ip2"}}, {ID: "p2", Subnets: []string{"s1"}, IPs: []string{"ip4"}}},
 		{{ID: "p1", Subnets: []string{"s1", "s2"}, IPs: []string{"ip1"}}, {ID: "p2", Subnets: []string{"s1"}, IPs: []string{"ip4", "ip5"}}},
 	}
+	cfgKeep = []env.Config{ // every IP stays configured across reloads; the second pool shares the pod subnet with the first
+		{{ID: "p1", Subnets: []string{"s1"}, IPs: []string{"ip1", "ip2"}}, {ID: "p2", Subnets: []string{"s1", "s2"}, IPs: []string{"ip3", "ip4"}}},
+		{{ID: "p1", Subnets: []string{"s1"}, IPs: []string{"ip1", "ip2"}}, {ID: "p2", Subnets: []string{"s1", "s2"}, IPs: []string{"ip3", "ip4", "ip5"}}},
+	}
 	cfgTight = []env.Config{ // few IPs: contention
 		{{ID: "p1", Subnets: []string{"s1"}, IPs: []string{"ip1", "ip2"}}},
 		{{ID: "p1", Subnets: []string{"s1"}, IPs: []string{"ip2", "ip3"}}},
@@ -120,6 +124,12 @@ func pickScenario(rng *rand.Rand, focus string) scenario {
 		sc.Sts["s"], sc.Dp["d"] = 1, 2
 		sc.MaxInc = 3
 		sc.Feat = feat("resync", "scale")
+		if rng.Intn(2) == 0 { // whole scheduler cycles: more reschedules per trace
+			sc.Feat["cycle"] = true
+		}
+		if rng.Intn(3) == 0 { // start after a rolled-out and deleted generation: the app holds reserved IPs
+			sc.Feat["rollout"] = true
+		}
 	case "c03": // release policies: all kinds and policies, scaling and deleting apps, lost events
 		sc.Cfgs, sc.NodeSub = cfgOne, nodesOneSubnet
 		sc.Specs = []env.PodSpec{sts("s-0", pol(rng, 0, 1, 2)), sts("s-1", pol(rng, 0, 1, 2)), dp("d-a", "d", pol(rng, 0, 1, 2), ""), dp("d-b", "d", pol(rng, 0, 1, 2), "")}
@@ -130,6 +140,13 @@ func pickScenario(rng *rand.Rand, focus string) scenario {
 		sc.MaxInc, sc.MaxOps = 2, 2
 		sc.Feat = feat("resync", "scale", "apirelease")
 		sc.WEnv = 35
+		if rng.Intn(3) == 0 { // the policy must survive a restart (it is rebuilt from the stored objects)
+			sc.Feat["crash"], sc.Crashes = true, 1
+		}
+		if rng.Intn(3) == 0 { // an immutable deployment is rolled out, scaled down and its pods go away together
+			sc.Specs[2].Policy, sc.Specs[3].Policy = 1, 1
+			sc.Feat["rollout"] = true
+		}
 	case "c04": // incarnations, informer lag, duplicated/late events, resync, API release, pod-ip sync
 		sc.Cfgs, sc.NodeSub = cfgOne, nodesOneSubnet
 		sc.Specs = []env.PodSpec{sts("s-0", pol(rng, 0, 1, 2)), dp("d-a", "d", pol(rng, 0, 1), "")}
@@ -138,6 +155,10 @@ func pickScenario(rng *rand.Rand, focus string) scenario {
 		sc.Cloud = rng.Intn(3) == 0
 		sc.Feat = feat("resync", "apirelease", "kubelet")
 		sc.WStep, sc.WEnv, sc.WStart = 40, 30, 30
+		if rng.Intn(4) == 0 { // configuration reloads that still contain the IPs (pools sharing the pod subnet)
+			sc.Cfgs, sc.NodeSub = cfgKeep, nodesTwoSubnets
+			sc.Feat["reload"] = true
+		}
 	case "c07": // sized pool shared by two deployments; concurrent filters and pool updates
 		sc.Cfgs, sc.NodeSub = cfgOne, nodesOneSubnet
 		sc.Specs = []env.PodSpec{dp("d-a", "d", 2, "pl"), dp("d-b", "d", 2, "pl"), dp("e-a", "e", 2, "pl")}
